@@ -11,6 +11,7 @@ from .core import AnchorError, Unsupported
 from .e1_srcmodel import dotted, walk_no_nested
 from .e2_eval import is_unknown
 from .sem import split_call, place
+from .c18_fold import Folder, FoldRaise
 from .c18_sem import (explore, app, head, same, vkey, unfn_m, strip, find, walk, contains, const_of, sym_of, norm_atom, depends_on_sym)
 
 N2P = "pyyeti/nastran/n2p.py"
@@ -32,56 +33,48 @@ NDDL = {"m": ["M"], "s": ["SG", "SB"], "o": ["O"], "q": ["Q"], "r": ["R"], "c": 
 EXTRA = {"b": ["S"]}
 
 
-def _fold(node, env):
-    if isinstance(node, ast.Constant) and isinstance(node.value, int):
-        return node.value
-    if isinstance(node, ast.Name):
-        if node.id in env:
-            return env[node.id]
-        raise Unsupported(f"unbound {node.id}")
-    if isinstance(node, ast.BinOp):
-        a, b = _fold(node.left, env), _fold(node.right, env)
-        if isinstance(node.op, ast.BitOr):
-            return a | b
-        if isinstance(node.op, ast.LShift):
-            return a << b
-        if isinstance(node.op, ast.BitAnd):
-            return a & b
-        if isinstance(node.op, ast.Add):
-            return a + b
-        if isinstance(node.op, ast.Pow):
-            return a ** b
-        if isinstance(node.op, ast.Mult):
-            return a * b
-    if isinstance(node, ast.UnaryOp) and isinstance(node.op, ast.Invert):
-        return ~_fold(node.operand, env)
-    raise Unsupported(f"cannot fold {ast.unparse(node)}")
+def _is_mask_table(t):
+    return isinstance(t, dict) and len(t) >= 8 and all(isinstance(k, str) for k in t) \
+        and all(isinstance(v, int) and not isinstance(v, bool) for v in t.values())
 
 
 def mask_table(ctx):
-    fn = ctx.src.func(N2P, "mkusetmask")
-    env = {}
-    table = None
-    tnode = None
-    for st in fn.body:
-        if isinstance(st, ast.Assign) and len(st.targets) == 1 and isinstance(st.targets[0], ast.Name):
-            if isinstance(st.value, ast.Dict):
-                d = {}
-                for k, v in zip(st.value.keys, st.value.values):
-                    if not (isinstance(k, ast.Constant) and isinstance(k.value, str)):
-                        raise Unsupported("non-literal key in the mask table")
-                    d[k.value] = _fold(v, env)
-                if len(d) >= 20:
-                    table, tnode = d, st
-                    env[st.targets[0].id] = d
-            else:
-                try:
-                    env[st.targets[0].id] = _fold(st.value, env)
-                except Unsupported:
-                    pass
-    if table is None:
-        raise AnchorError("mkusetmask: mask dictionary not found")
-    return table, tnode, fn
+    """(table, mkusetmask, mkusetmask): the mask table is the *value* `mkusetmask()` returns - however the source builds it (dict literal in
+    the function, module-level table, loop / reduce over a data table, private helpers); see c18_fold.py.  Folded once per run."""
+    hit = getattr(ctx, "_c18_masks", None)
+    if hit is None:
+        fn = ctx.src.func(N2P, "mkusetmask")
+        fo = Folder(ctx, N2P)
+        try:
+            try:
+                table = fo.call("mkusetmask")
+            except FoldRaise as e:
+                if "missing argument" not in e.what:
+                    raise
+                table = fo.call("mkusetmask", None)
+        except FoldRaise as e:
+            raise AnchorError(f"mkusetmask: mask dictionary not found (the call without a set name raises: {e.what})")
+        if not _is_mask_table(table):
+            raise AnchorError(f"mkusetmask: mask dictionary not found (the call without a set name returns {str(table)[:80]!r})")
+        hit = ctx._c18_masks = (dict(table), fn, fo)
+    return hit[0], hit[1], hit[1]
+
+
+def mask_folder(ctx):
+    mask_table(ctx)
+    return ctx._c18_masks[2]
+
+
+def mask_of(ctx, request):
+    """value of mkusetmask(request) for a literal string: ("ok", int) / ("raise", text) / ("odd", value)"""
+    fo = mask_folder(ctx)
+    try:
+        v = fo.call("mkusetmask", request)
+    except FoldRaise as e:
+        return "raise", e.what
+    if isinstance(v, int) and not isinstance(v, bool):
+        return "ok", v
+    return "odd", str(v)[:80]
 
 
 # MSC/NX Nastran NDDL "USET" bit positions (public data-block definition; bit 0 = least significant), kept here as published
@@ -96,17 +89,19 @@ def nddl_bits(ctx):
     return dict(NDDL_BITS)
 
 
+_NDDL_NAME = re.compile(r"[A-Z][A-Z0-9]*$")
+
+
 def nddl_bits_from_comment(ctx):
-    """bit table from the comment block inside mkusetmask (code <-> comment sibling)."""
-    fn = ctx.src.func(N2P, "mkusetmask")
+    """bit table from the comment block next to the mask definitions, wherever in n2p.py it sits (code <-> comment sibling): comment lines
+    made of (bit number, NDDL name) pairs"""
     m = ctx.src.mod(N2P)
-    lines = m.source.split("\n")[fn.lineno - 1: fn.end_lineno]
     bits = {}
-    for ln in lines:
+    for ln in m.source.split("\n"):
         s = ln.strip()
         if s.startswith("#"):
             toks = s[1:].split()
-            if len(toks) >= 2 and len(toks) % 2 == 0 and all(t.isdigit() for t in toks[::2]):
+            if len(toks) >= 4 and len(toks) % 2 == 0 and all(t.isdigit() for t in toks[::2]) and all(_NDDL_NAME.match(t) for t in toks[1::2]):
                 for i in range(0, len(toks), 2):
                     bits[toks[i + 1]] = int(toks[i])
     return bits
@@ -193,36 +188,32 @@ def r1_lattice(ctx):
         ctx.check(ok, f"user set u{i} is the single NDDL bit U{i}, disjoint from all other sets", tnode,
                   None if ok else {"mask": _bitsof(u)})
         seen |= u
-    # 5. the '+' combination arm ORs the member masks
-    _plus_arm(ctx, fn)
-
-
-def _plus_arm(ctx, fn):
-    """how the masks of the names of an 'x+y' request are combined: | (loop, reduce) is right, + / sum is provably wrong (shared bits carry)"""
-    ors, adds = [], []
-    for n in walk_no_nested(fn):
-        if isinstance(n, ast.For):
-            for st in ast.walk(n):
-                if isinstance(st, ast.AugAssign) and isinstance(st.op, (ast.BitOr, ast.Add)):
-                    (ors if isinstance(st.op, ast.BitOr) else adds).append(st)
-                elif isinstance(st, ast.Assign) and isinstance(st.value, ast.BinOp) and isinstance(st.value.op, (ast.BitOr, ast.Add)):
-                    (ors if isinstance(st.value.op, ast.BitOr) else adds).append(st)
-        elif isinstance(n, ast.Call):
-            d = dotted(n.func) or ""
-            a0 = dotted(n.args[0]) if n.args else None
-            if d in ("reduce", "functools.reduce") and a0 in ("operator.or_", "or_", "operator.ior", "ior", "np.bitwise_or"):
-                ors.append(n)
-            elif d in ("np.bitwise_or.reduce", "np.logical_or.reduce"):
-                ors.append(n)
-            elif d in ("sum", "np.sum", "math.fsum") or (d in ("reduce", "functools.reduce") and a0 in ("operator.add", "add", "operator.iadd")):
-                adds.append(n)
-    if ors and not adds:
-        ctx.ok("mkusetmask('x+y') ORs the masks of the named sets", ors[0])
-    elif adds:
-        ctx.fail("mkusetmask('x+y') ORs the masks of the named sets", adds[0],
-                 {"found": ast.unparse(adds[0])[:120], "consequence": "masks that share bits ('a+b', 'l+t') carry into other sets' bits when added"})
+    # 5. a set name gives the table entry; an 'x+y' request gives the OR of the masks of the named sets.  Decided on the values mkusetmask
+    # returns (every name, every pair of names, some longer requests) - a loop with |=, reduce(or_), a helper are all the same to this check
+    bad = {}
+    for x in table:
+        st, v = mask_of(ctx, x)
+        if st != "ok" or v != table[x]:
+            bad[x] = {"mkusetmask(name)": v if st == "ok" else f"{st}: {v}", "mkusetmask()[name]": table[x]}
+    ctx.check(not bad, "mkusetmask(name) is the table entry mkusetmask()[name] for every set name", fn, dict(list(bad.items())[:4]) or None)
+    names = sorted(table)
+    reqs = [(x, y) for i, x in enumerate(names) for y in names[i + 1:]] + [(y, x) for x, y in zip(names, names[1:])]
+    reqs += [("a", "o", "m"), ("b", "b"), ("l", "t", "q", "e"), ("u1", "p", "s")]
+    bad, odd = [], []
+    for r in reqs:
+        want = 0
+        for x in r:
+            want |= table[x]
+        st, v = mask_of(ctx, "+".join(r))
+        if st == "ok" and v == want:
+            continue
+        (bad if st in ("ok", "raise") else odd).append({"request": "+".join(r), "returned": v if st == "ok" else f"{st}: {v}", "OR of the masks": want})
+    if odd and not bad:
+        ctx.error("mkusetmask('x+y'): the value returned for a combined request is not an integer", fn, odd[:3])
     else:
-        ctx.error("mkusetmask('x+y'): how the masks of the named sets are combined is not recognised (rule knows |= in a loop and reduce(or_))", fn)
+        ctx.check(not bad, "mkusetmask('x+y') ORs the masks of the named sets", fn,
+                  None if not bad else {"mismatches": len(bad), "first": bad[:3],
+                                        "consequence": "masks that share bits ('a+b', 'l+t') carry into other sets' bits when added"})
 
 
 # ------------------------------------------------------------------------------------------------------------------
@@ -337,9 +328,10 @@ def r1b_producer(ctx):
     # who-may-define: no literal copy of a multi-bit set mask anywhere else in the package
     multi = {v for k, v in table.items() if bin(v).count("1") > 1}
     hits = []
+    defining = mask_folder(ctx).literals         # the literals mkusetmask's value is folded from, wherever in n2p.py they sit
     for rel in ctx.src.all_py():
-        for lineno, value, func in _int_literals(ctx, rel, multi):
-            if rel == N2P and func == "mkusetmask":
+        for lineno, col, value, func in _int_literals(ctx, rel, multi):
+            if rel == N2P and (lineno, col) in defining:
                 continue
             hits.append(f"{rel}:{lineno} literal {value}")
     # docstring example outputs are strings, not int constants, so they do not count
@@ -386,7 +378,7 @@ class _Scanned:
 
 
 def _int_literals(ctx, rel, wanted):
-    """(line, value, enclosing function) of every integer literal of the file whose value is in `wanted`.  A file is parsed only when its
+    """(line, column, value, enclosing function) of every integer literal of the file whose value is in `wanted`.  A file is parsed only when its
     text holds a numeric token with such a value (tokens inside strings / comments only cost the parse)."""
     src = ctx.src
     m = src.mods.get(rel)
@@ -410,7 +402,7 @@ def _int_literals(ctx, rel, wanted):
         for c in ast.iter_child_nodes(node):
             f = c.name if isinstance(c, (ast.FunctionDef, ast.AsyncFunctionDef)) else func
             if isinstance(c, ast.Constant) and isinstance(c.value, int) and not isinstance(c.value, bool) and c.value in wanted:
-                out.append((c.lineno, c.value, func))
+                out.append((c.lineno, c.col_offset, c.value, func))
             visit(c, f)
     visit(tree, None)
     return out
